@@ -44,10 +44,10 @@ func DefaultAccounts() []sdk.AccAddress {
 }
 
 const (
-	DenomStake  = "stake"
-	DenomRegen  = "uregen"
-	DenomIBC    = "ibc/CDC4587874B85BEA4FCEC3CEA5A1195139799A1FEE711A07D972537E18FDA39D"
-	DenomOther  = "uatom" // never allowed at genesis
+	DenomStake = "stake"
+	DenomRegen = "uregen"
+	DenomIBC   = "ibc/CDC4587874B85BEA4FCEC3CEA5A1195139799A1FEE711A07D972537E18FDA39D"
+	DenomOther = "uatom" // never allowed at genesis
 	// the IBC denom stands for an 18-decimals asset: everyone holds 10^30 base units of it, so fees, prices and
 	// payments of 2^63 .. 2^64 base units and beyond can actually be paid
 	FundsPerAcc = "1000000000000stake,1000000000000uregen,1000000000000000000000000000000" + DenomIBC + ",1000000000000uatom"
